@@ -1428,7 +1428,11 @@ func (r *raft) restore(s pb.Snapshot) bool {
 
 	// Both of `prs` and `learnerPrs` are empty means the peer is new created by
 	// conf change, in which case we should accept snapshots make it as learner.
-	if (len(r.prs) > 0 || len(r.learnerPrs) > 0) && !r.isLearner {
+	// Only a replica that is a voter in its own configuration refuses to be turned into a
+	// learner by a snapshot.  A replica that is in nobody's voter set (e.g. a learner that was
+	// restarted before its storage named it: RestartNode cannot know the role) must be able to
+	// catch up from the leader's snapshot.
+	if _, voter := r.prs[r.id]; voter && !r.isLearner {
 		for _, id := range s.Metadata.ConfState.Learners {
 			if id == r.id {
 				r.logger.Errorf("%x can't become learner when restores snapshot [index: %d, term: %d]", r.id, s.Metadata.Index, s.Metadata.Term)
